@@ -989,6 +989,55 @@ def tree_shape(case):
     return ','.join(str(p) for p, _ in case['derive'])
 
 
+def chain_in_domain(ops):
+    """the hypotheses the chain generator keeps (mirror of gen_chain): no zero-width operation once an
+    attribute selection is in the stream (C20-attr-structural); between two buffer() barriers a buffer has
+    one writer and is not written after an injector read it (C20-buffer-feedback / -two-writers)"""
+    attr_seen = False
+    read_live, written_live = set(), set()
+    for op in ops:
+        if op[0] == 'select' and has_attr(op[1]):
+            attr_seen = True
+        elif attr_seen and op[0] in ZERO_WIDTH:
+            return False
+        if op[0] == 'buffer':
+            read_live, written_live = set(), set()
+        if op[0] in INJECT and op[1][0] == 'buf':
+            read_live.add(op[1][1])
+        if op[0] in ('copy', 'cut'):
+            if op[1] in read_live or op[1] in written_live:
+                return False
+            written_live.add(op[1])
+    return True
+
+
+def form_in_domain(case):
+    """the hypotheses the form generator keeps: option and textarea elements hold text only, no form in a
+    form, no select in a select (C20-option-children, C20-nested-controls), no None / empty list for the
+    name of a textarea (C20-textarea-none)"""
+    data = dict((k, v) for k, v in case['data'])
+
+    def ok(nodes, in_form, in_select):
+        for n in nodes:
+            if n[0] != 'e':
+                continue
+            tag = n[1][1]
+            if tag == 'form' and in_form:
+                return False
+            if tag == 'select' and in_select:
+                return False
+            if tag in ('option', 'textarea') and any(k[0] != 't' for k in n[3]):
+                return False
+            if tag == 'textarea':
+                for a, v in n[2]:
+                    if a == ['', 'name'] and v in data and (data[v] is None or data[v] == []):
+                        return False
+            if not ok(n[3], in_form or tag == 'form', in_select or tag == 'select'):
+                return False
+        return True
+    return ok(case['doc'], False, False)
+
+
 def stagewise(ops):
     """mirror of `Genshi.Tf.stagewise` (Model/TfLazy.lean): between two buffer() barriers no buffer is
     written twice, or read by an injector and written -- the chains for which the stage-wise model is exact"""
